@@ -7,6 +7,9 @@ from machine import Mem
 def run_one(prog, labels, words, first_round, windowed, entry="ascon_permute"):
     N = words.shape[1]
     mem = Mem(N, 4)
+    if windowed:
+        # windowed ABI: the 16 bytes below the caller's stack pointer are the save area of the register window of the caller's caller (window overflow / underflow handlers use it)
+        mem.reserved.append((SP0 - 16, SP0, "the register-window save area below the caller's stack pointer"))
     mem.ptrcells = {}
     for i in range(10):
         mem.cells[(STATE + 4 * i, 4)] = words[i].copy()
